@@ -193,27 +193,18 @@ class UnusedTranslator:
             """places the new arguments inside the symbol (and returns it)
             given by order of self.arguments"""
 
-            def replace(input_: AST, old: AST, new: AST) -> AST:
-                if input_ == old:
-                    return new
-                return input_
+            # substitute all head variables at once: replacing them one after the other captures a
+            # just inserted term whose variable happens to be called like a later head variable
+            substitution: dict[AST, AST] = {}
+            for head_arg, new_arg in zip(self.arguments, arguments):
+                substitution.setdefault(head_arg, new_arg)
 
-            args = deepcopy(list(self.symbol.arguments))
-            for index, _ in enumerate(args):
-                for head_arg, new_arg in zip(self.arguments, arguments):
-                    args[index] = transform_ast(args[index], "Variable", partial(replace, old=head_arg, new=new_arg))
+            def replace_all(input_: AST) -> AST:
+                if input_ in substitution:
+                    return substitution[input_]
+                return Variable(LOC, "_")  # a variable of the copied body that the head does not mention
 
-            old_vars: set[AST] = set()
-            for arg in arguments:
-                old_vars.update(collect_ast(arg, "Variable"))
-
-            def replace_rest(input_: AST, old_vars: set[AST]) -> AST:
-                if input_ not in old_vars:
-                    return Variable(LOC, "_")
-                return input_
-
-            for index, arg in enumerate(args):
-                args[index] = transform_ast(arg, "Variable", partial(replace_rest, old_vars=old_vars))
+            args = [transform_ast(arg, "Variable", replace_all) for arg in deepcopy(list(self.symbol.arguments))]
             return SymbolicAtom(Function(LOC, self.symbol.name, args, False))
 
     @staticmethod
